@@ -532,7 +532,7 @@ def _canon_text(doc):
     return json.dumps(canon_json(doc), sort_keys=True, allow_nan=False)
 
 
-def produce(path, files=(), sources=(), terms=(), max_units=800, shapes=()):
+def produce(path, files=(), sources=(), terms=(), max_units=800, shapes=(), ladder=(), bad=False):
     """documents of this interpreter: one line {id, raw, norm} per code object / carrier"""
     from code_data import CodeData
 
@@ -584,6 +584,23 @@ def produce(path, files=(), sources=(), terms=(), max_units=800, shapes=()):
                 emit("shape:%s:%s" % (VER, sid), abs_code_data(a))
             except BaseException:  # noqa
                 pass
+        if ladder:
+            # code data nested in code data nested in ... : documents of increasing nesting depth
+            cd = carrier(0, "operand")
+            for d in range(1, max(ladder) + 1):
+                try:
+                    cd = carrier(cd, "operand")
+                except BaseException:  # noqa
+                    break
+                if d in ladder:
+                    emit("ladder:%s:%d" % (VER, d), cd)
+        if bad:
+            # documents from_json_data must refuse (or not): what a refusal leaves behind is the point
+            good = carrier(1, "operand").to_json_data()
+            for k, doc in enumerate([{}, [], None, dict(good, blocks=5), dict(good, nonsense=1), dict(good, blocks=[[{"name": 5}]]),
+                                     dict(good, type={"args": {"bogus": []}}), dict(good, blocks=[[{"name": "NOP", "arg": {"x": 1}}]])]):
+                fh.write(json.dumps({"id": "bad:%s:%d" % (VER, k), "producer": VER, "raw": doc, "norm": doc}) + "\n")
+                n += 1
     return n
 
 
